@@ -122,8 +122,6 @@ S = {
         "a table in level 6 (manual per-level compactions), then two close/reopen cycles with reuse_logs=0: the MANIFEST snapshot written at reopen 1 omits level 6, reopen 2 shows it empty and deletes the table", ""),
     "c14-recovery-flush-placed-against-stale-version": ("C14", "C05,C03,C14",
         "two or more logs with a common user key replayed in one open (crash with a frozen memtable pending): their tables are placed by overlap checks against a version lacking the earlier log's table (similar to c05-recovered-tables-placed-against-stale-version and c03-recovered-tables-of-nonlast-logs-skip-level0, found independently)", ""),
-    "c14-seek-compaction-moves-lone-l0-file": ("C14", "C14,C01",
-        "two overlapping level-0 tables; the newer one exhausts its seek allowance (>=100 charged lookups) and is compacted alone", ""),
     "c14-boundary-file-byte-equality": ("C14", "C14,C01",
         "case-insensitive comparator, one user key split over two tables of a level (snapshot-pinned large values) with different spellings at the cut", ""),
     "c15-writer-reopened-in-trailer-skips-padding": ("C15", "C15,C03",
